@@ -35,6 +35,49 @@ pub enum Step {
     /// obtains by relaying the ClientHello to the live genuine server and copying its answer (a
     /// signing oracle); the attacker cannot derive keys from it.
     HonestKeyExchange,
+    /// a further ServerHello with a FRESH server random in the middle of the flight; the attacker
+    /// signs later key exchanges over, and derives keys from, the newest random
+    ServerHelloAgain,
+    /// a premature ServerHelloDone in the middle of the flight (the final one is still sent)
+    HelloDone,
+    /// the attacker's own share (secp256r1, correctly labelled) with a chosen signature-algorithm
+    /// label and a chosen signature blob
+    KeyExchangeCustom { alg: (u8, u8), sig: SigKind },
+}
+
+/// what the signature field of a KeyExchangeCustom holds
+#[derive(Clone, Copy, Debug, PartialEq, Eq)]
+pub enum SigKind {
+    /// a correct DER ECDSA signature by the ATTACKER's key
+    AttackerDer,
+    /// the attacker's signature as fixed-size r||s (64 bytes), not DER
+    AttackerRaw,
+    /// the attacker's DER signature followed by two garbage bytes
+    AttackerDerTrailing,
+    /// a signature by the GENUINE key (signing oracle) over ANOTHER share (the one the genuine server
+    /// chose), transplanted next to the attacker's share
+    HonestOverOtherShare,
+    /// zero bytes of signature
+    Empty,
+    /// DER SEQUENCE { INTEGER 0, INTEGER 0 }
+    ZeroDer,
+    /// DER SEQUENCE { INTEGER 1, INTEGER 1 }
+    OnesDer,
+}
+
+pub const SIG_KINDS: &[SigKind] = &[SigKind::AttackerDer, SigKind::AttackerRaw, SigKind::AttackerDerTrailing, SigKind::HonestOverOtherShare, SigKind::Empty, SigKind::ZeroDer, SigKind::OnesDer];
+
+/// own encoder (the repository's always writes the label 4,3)
+fn encode_ske(curve_type: u8, named_curve: u16, public: &[u8], alg: (u8, u8), sig: &[u8]) -> Vec<u8> {
+    let mut b = vec![curve_type];
+    b.extend_from_slice(&named_curve.to_be_bytes());
+    b.push(public.len() as u8);
+    b.extend_from_slice(public);
+    b.push(alg.0);
+    b.push(alg.1);
+    b.extend_from_slice(&(sig.len() as u16).to_be_bytes());
+    b.extend_from_slice(sig);
+    b
 }
 
 pub struct ScriptedServer {
@@ -138,6 +181,37 @@ impl ScriptedServer {
         self
     }
 
+    /// a ServerHello body with a fresh random (remembered as THE server random from now on)
+    fn server_hello_body(&mut self) -> BytesMut {
+        let random = Random::new();
+        self.server_random = random.to_bytes();
+        let mut session_id = vec![0u8; 32];
+        session_id[0] = 0xA7;
+        let sh = ServerHello {
+            version: ProtocolVersion::DTLS_1_2,
+            random,
+            session_id,
+            cipher_suite: 0xC02B,
+            compression_method: 0,
+            // use_srtp: SRTP_AES128_CM_HMAC_SHA1_80, no MKI; no extended master secret
+            extensions: vec![0x00, 0x0e, 0x00, 0x05, 0x00, 0x02, 0x00, 0x01, 0x00],
+        };
+        let mut b = BytesMut::new();
+        sh.encode(&mut b);
+        b
+    }
+
+    fn signed_params(&self, curve_type: u8, named_curve: u16, public: &[u8]) -> Vec<u8> {
+        let mut p = vec![];
+        p.extend_from_slice(&self.client_random);
+        p.extend_from_slice(&self.server_random);
+        p.push(curve_type);
+        p.extend_from_slice(&named_curve.to_be_bytes());
+        p.push(public.len() as u8);
+        p.extend_from_slice(public);
+        p
+    }
+
     fn hs(&mut self, msg_type: u8, body: &[u8]) -> Vec<u8> {
         let h = Hs { msg_type, length: body.len() as u32, message_seq: self.msg_seq, frag_off: 0, frag_len: body.len() as u32, body: body.to_vec() };
         self.msg_seq += 1;
@@ -171,21 +245,7 @@ impl ScriptedServer {
                                 self.started = true;
                                 self.client_random = hello.random.to_bytes();
                                 self.transcript = raw.clone();
-                                let random = Random::new();
-                                self.server_random = random.to_bytes();
-                                let mut session_id = vec![0u8; 32];
-                                session_id[0] = 0xA7;
-                                let sh = ServerHello {
-                                    version: ProtocolVersion::DTLS_1_2,
-                                    random,
-                                    session_id,
-                                    cipher_suite: 0xC02B,
-                                    compression_method: 0,
-                                    // use_srtp: SRTP_AES128_CM_HMAC_SHA1_80, no MKI; no extended master secret
-                                    extensions: vec![0x00, 0x0e, 0x00, 0x05, 0x00, 0x02, 0x00, 0x01, 0x00],
-                                };
-                                let mut b = BytesMut::new();
-                                sh.encode(&mut b);
+                                let b = self.server_hello_body();
                                 let mut flight = vec![self.hs(2, &b)];
                                 for step in self.script.clone() {
                                     match step {
@@ -224,6 +284,39 @@ impl ScriptedServer {
                                             let ske = ServerKeyExchange { curve_type, named_curve, public_key: self.public.clone(), signature: sig.to_der().as_bytes().to_vec() };
                                             let mut b = BytesMut::new();
                                             ske.encode(&mut b);
+                                            flight.push(self.hs(12, &b));
+                                        }
+                                        Step::ServerHelloAgain => {
+                                            let b = self.server_hello_body();
+                                            flight.push(self.hs(2, &b));
+                                        }
+                                        Step::HelloDone => {
+                                            flight.push(self.hs(14, &[]));
+                                        }
+                                        Step::KeyExchangeCustom { alg, sig } => {
+                                            let public = self.public.clone();
+                                            let p = self.signed_params(3, 23, &public);
+                                            let own: Signature = self.signing.sign(&p);
+                                            let blob: Vec<u8> = match sig {
+                                                SigKind::AttackerDer => own.to_der().as_bytes().to_vec(),
+                                                SigKind::AttackerRaw => own.to_bytes().to_vec(),
+                                                SigKind::AttackerDerTrailing => {
+                                                    let mut v = own.to_der().as_bytes().to_vec();
+                                                    v.extend_from_slice(&[0x05, 0x00]);
+                                                    v
+                                                }
+                                                SigKind::HonestOverOtherShare => {
+                                                    let Some(honest) = self.honest.clone() else { continue };
+                                                    let eph = EphemeralSecret::random(&mut OsRng);
+                                                    let other = eph.public_key().to_encoded_point(false).as_bytes().to_vec();
+                                                    let s: Signature = honest.sign(&self.signed_params(3, 23, &other));
+                                                    s.to_der().as_bytes().to_vec()
+                                                }
+                                                SigKind::Empty => vec![],
+                                                SigKind::ZeroDer => vec![0x30, 0x06, 0x02, 0x01, 0x00, 0x02, 0x01, 0x00],
+                                                SigKind::OnesDer => vec![0x30, 0x06, 0x02, 0x01, 0x01, 0x02, 0x01, 0x01],
+                                            };
+                                            let b = encode_ske(3, 23, &public, alg, &blob);
                                             flight.push(self.hs(12, &b));
                                         }
                                         Step::KeyExchange => {
